@@ -1162,43 +1162,46 @@ def d4_cast(ctx, idx, flag_attr):
                     f = env[f.id]
                 if isinstance(f, ast.Subscript) and isinstance(f.value, ast.Name) and f.value.id == actions_p:
                     action_calls.append(c)
-        if len(action_calls) != 1:
-            raise AnalysisError('eval_node: expected exactly one call of an action, found %d' % len(action_calls))
-        ast_stmt = lib.enclosing_stmt(action_calls[0])
-        if not (isinstance(ast_stmt, ast.Assign) and len(ast_stmt.targets) == 1 and isinstance(ast_stmt.targets[0], ast.Name)):
-            raise AnalysisError('eval_node: the action result is not bound to a local')
-        derived = {ast_stmt.targets[0].id}
-        changed = True
-        while changed:
-            changed = False
-            for n in walk_own(fi.node):
-                if isinstance(n, ast.Assign) and lib.names_in(n.value) & derived:
-                    for t in n.targets:
-                        for x in ast.walk(t):
-                            if isinstance(x, ast.Name) and x.id not in derived:
-                                derived.add(x.id)
-                                changed = True
+        if not action_calls:
+            raise AnalysisError('eval_node: no call of an action found')
         cfg = cfg_of(fi.node)
-        start = cfg.nodes_of(ast_stmt)
-        result_name = ast_stmt.targets[0].id
         n_ret = 0
-        for ret in lib.returns_of(fi.node):
-            rn = cfg.nodes_of(ret)
-            if not cfg.reaches(start, rn):
-                continue
-            v = ret.value
-            if v is None or not (lib.names_in(v) & derived):
-                continue
-            n_ret += 1
-            ok = _is_cast_expr(idx, fi, v, cast, derived)
-            if ok is None:
-                r.undecided('MathExpression.eval_node: return of the action result', 'cannot tell whether `%s` passes the action result '
-                            'through cast_np_numeric_as_builtin' % short(v), lib.loc(fi, ret))
-                continue
-            r.check(ok, 'MathExpression.eval_node: return of the action result', 'cast_np_numeric_as_builtin(result, ...)',
-                    'the value computed by an evaluation action is returned as `%s` without cast_np_numeric_as_builtin: numpy scalars '
-                    '(from np.dot, norm, det, trace) reach the next operator as left operands and broadcast silently' % short(v),
-                    lib.loc(fi, ret), expected='return cast_np_numeric_as_builtin(result, map_across_lists=True)', found=short(ret))
+        for k, acall in enumerate(action_calls):
+            ast_stmt = lib.enclosing_stmt(acall)
+            if not (isinstance(ast_stmt, ast.Assign) and len(ast_stmt.targets) == 1 and isinstance(ast_stmt.targets[0], ast.Name)
+                    and ast_stmt.value is acall):
+                # handed straight to a helper or returned directly
+                if isinstance(ast_stmt, ast.Return):
+                    holder_ok = _is_cast_expr(idx, fi, ast_stmt.value, cast, set(), 0, raw_call=acall)
+                    n_ret += 1
+                    _report_cast(r, fi, ast_stmt, ast_stmt.value, holder_ok, acall, len(action_calls))
+                    continue
+                raise AnalysisError('eval_node: the action result `%s` is not bound to a local' % short(acall))
+            seed = ast_stmt.targets[0].id
+            start = cfg.nodes_of(ast_stmt)
+            # names derived from THIS call: only through assignments the call's statement reaches
+            derived = {seed}
+            changed = True
+            while changed:
+                changed = False
+                for n in walk_own(fi.node):
+                    if isinstance(n, ast.Assign) and n is not ast_stmt and lib.names_in(n.value) & derived \
+                            and cfg.nodes_of(n) and cfg.reaches(start, cfg.nodes_of(n)):
+                        for t in n.targets:
+                            for x in ast.walk(t):
+                                if isinstance(x, ast.Name) and x.id not in derived:
+                                    derived.add(x.id)
+                                    changed = True
+            for ret in lib.returns_of(fi.node):
+                rn = cfg.nodes_of(ret)
+                if not rn or not cfg.reaches(start, rn):
+                    continue
+                v = ret.value
+                if v is None or not (lib.names_in(v) & derived):
+                    continue
+                n_ret += 1
+                ok = _is_cast_expr(idx, fi, v, cast, derived, 0, at=ret, origin=ast_stmt)
+                _report_cast(r, fi, ret, v, ok, acall, len(action_calls))
         if n_ret == 0:
             absent(r, idx, 'MathExpression.eval_node: return of the action result', 'no return hands out the action result', fi.loc)
         # (c) eval_product: every arithmetic update of the accumulator is followed by the cast before the next iteration / return
@@ -1243,6 +1246,34 @@ def d4_cast(ctx, idx, flag_attr):
                     lib.loc(fp, u), expected='%s = cast_np_numeric_as_builtin(%s)' % (acc, acc))
 
 
+def _report_cast(r, fi, ret, v, ok, acall, n_calls):
+    where_if = ''
+    for a_ in ancestors(acall):
+        if isinstance(a_, ast.If) and any(acall is x for st in a_.body for x in ast.walk(st)):
+            where_if = ' (the exit taken when `%s`)' % short(a_.test, 60)
+            break
+        if isinstance(a_, (ast.FunctionDef, ast.Lambda)):
+            break
+    construct = 'MathExpression.eval_node: return of the action result' + (' `%s`' % short(acall, 40) if n_calls > 1 else '')
+    left = list(getattr(r.ctx.index, 'unreviewed', None) or [])
+    if ok is False and left:
+        # the returned value and every binding of it are free of calls of the un-inlined helpers: the data flow from the action
+        # call to this return was read completely, the finding does not depend on them
+        exprs = [v] + [x for nm in lib.names_in(v) for x in lib.assigned_value(fi.node, nm)]
+        called = {nf.callee_name(c) for e in exprs for c in ast.walk(e) if isinstance(c, ast.Call)}
+        if not any(q.rsplit('.', 1)[-1] in called for q in left):
+            construct += ' [data flow read completely: no call of %s between the action and this return]' % ', '.join(left)
+    if ok is None:
+        r.undecided(construct, 'cannot tell whether `%s` passes the action result through cast_np_numeric_as_builtin' % short(v), lib.loc(fi, ret))
+        return
+    r.check(ok, construct, 'cast_np_numeric_as_builtin(result, ...)',
+            'the value computed by the evaluation action `%s`%s is returned as `%s` without cast_np_numeric_as_builtin: every exit of '
+            'eval_node that hands out an action\'s result must pass the cast, otherwise numpy scalars (numpy-typed variables, results of '
+            'np.dot, norm, det, trace) reach the next operator as left operands and broadcast silently instead of raising'
+            % (short(acall, 50), where_if, short(v)), lib.loc(fi, ret),
+            expected='return cast_np_numeric_as_builtin(result, map_across_lists=True)', found=short(ret))
+
+
 def _derived_closure(fn_node, seeds):
     derived = set(seeds)
     changed = True
@@ -1258,10 +1289,17 @@ def _derived_closure(fn_node, seeds):
     return derived
 
 
-def _is_cast_expr(idx, fi, v, cast, derived, depth=0):
+def _is_cast_expr(idx, fi, v, cast, derived, depth=0, at=None, origin=None, raw_call=None):
     """True: v is cast(<derived name>, ...), a local whose every binding is such a call, or a call of a package helper all of whose
     returns that hand out the derived argument are such casts.  False: a recognised hand-out without the cast.  None: unknown."""
     if depth > 4:
+        return None
+    if raw_call is not None:
+        # the action call is written inline: it must sit (possibly through helpers) inside the cast call
+        if isinstance(v, ast.Call) and _resolves_to(idx, fi, v, cast):
+            return bool(v.args) and any(x is raw_call for x in ast.walk(v.args[0]))
+        if v is raw_call:
+            return False
         return None
     if isinstance(v, ast.Call):
         if _resolves_to(idx, fi, v, cast):
@@ -1301,6 +1339,17 @@ def _is_cast_expr(idx, fi, v, cast, derived, depth=0):
         return True if all(x is True for x in verdicts) else None
     if isinstance(v, ast.Name):
         vals = lib.assigned_value(fi.node, v.id)
+        if at is not None and depth == 0:
+            # only the bindings that can reach this return
+            cfg = cfg_of(fi.node)
+            rn = cfg.nodes_of(at)
+            keep = []
+            for n in walk_own(fi.node):
+                if isinstance(n, ast.Assign) and any(isinstance(t, ast.Name) and t.id == v.id for t in n.targets) \
+                        and cfg.nodes_of(n) and cfg.reaches(cfg.nodes_of(n), rn):
+                    if origin is None or n is origin or cfg.reaches(cfg.nodes_of(origin), cfg.nodes_of(n)):
+                        keep.append(n.value)
+            vals = keep
         if not vals:
             return False if v.id in derived else None      # a parameter carrying the action result, handed out bare
         if v.id in derived and all(not (lib.names_in(x) & (derived - {v.id})) and not _resolves_to_cast(idx, fi, x, cast) for x in vals):
@@ -1422,6 +1471,7 @@ MUTANTS = [
     Mutant('eval-node-screening-helper-returns-uncast', EXPR,
            "        # All actions convert the input to a number, array, or list.\n        # (Only self.actions['arguments'] returns a list.)\n        as_list = result if isinstance(result, list) else [result]\n\n        # Check if there were any infinities or nan\n        if not allow_inf and any(np.any(np.isinf(r)) for r in as_list):\n            raise CalcOverflowError(\"Numerical overflow occurred. Does your expression \"\n                                    \"generate very large numbers?\")\n        if any(np.any(np.isnan(r)) for r in as_list):\n            return float('nan')\n\n        return cast_np_numeric_as_builtin(result, map_across_lists=True)\n",
            "        return MathExpression._screen_result(result, allow_inf)\n\n    @staticmethod\n    def _screen_result(result, allow_inf):\n        entries = result if isinstance(result, list) else [result]\n        if not allow_inf:\n            for entry in entries:\n                if np.any(np.isinf(entry)):\n                    raise CalcOverflowError(\"Numerical overflow occurred.\")\n        for entry in entries:\n            if np.any(np.isnan(entry)):\n                return float('nan')\n        return result\n", 'D4'),
+    Mutant('seeded-C14k-terminal-exit-of-eval-node-uncast', EXPR, hunks('C14k', EXPR), None, 'D4'),
     Mutant('eval-product-cast-only-after-division', EXPR, "            # Need to cast np numerics as builtins here (in addition to during\n            # eval_node) because the result is changing shape\n            result = cast_np_numeric_as_builtin(result)",
            "            if op == '/':\n                result = cast_np_numeric_as_builtin(result)", 'D4'),
 ]
@@ -1468,5 +1518,8 @@ BENIGN = [
     Benign('eval-node-screening-and-cast-in-helper', EXPR,
            "        # All actions convert the input to a number, array, or list.\n        # (Only self.actions['arguments'] returns a list.)\n        as_list = result if isinstance(result, list) else [result]\n\n        # Check if there were any infinities or nan\n        if not allow_inf and any(np.any(np.isinf(r)) for r in as_list):\n            raise CalcOverflowError(\"Numerical overflow occurred. Does your expression \"\n                                    \"generate very large numbers?\")\n        if any(np.any(np.isnan(r)) for r in as_list):\n            return float('nan')\n\n        return cast_np_numeric_as_builtin(result, map_across_lists=True)\n",
            "        return MathExpression._screen_result(result, allow_inf)\n\n    @staticmethod\n    def _screen_result(result, allow_inf):\n        entries = result if isinstance(result, list) else [result]\n        if not allow_inf:\n            for entry in entries:\n                if np.any(np.isinf(entry)):\n                    raise CalcOverflowError(\"Numerical overflow occurred.\")\n        for entry in entries:\n            if np.any(np.isnan(entry)):\n                return float('nan')\n        return cast_np_numeric_as_builtin(result, map_across_lists=True)\n"),
+    Benign('C14k-corrected-eval-node-split', EXPR, hunks('C14k', EXPR, fixes=[
+        ("            return MathExpression.screen_result(action(list(node)), allow_inf)\n",
+         "            return cast_np_numeric_as_builtin(MathExpression.screen_result(action(list(node)), allow_inf),\n                                              map_across_lists=True)\n")]), None),
     Benign('mul-collapse-without-isinstance', MA, "                if isinstance(result, MathArray) and is_numberlike_array(result):", "                if is_numberlike_array(result):"),
 ]
